@@ -396,6 +396,26 @@ def rule_PC5(ctx, rep):
             rep.ok('PC5', fn, c, 'connection selected by the peer argument')
     if len(sc[0].args) < 2 or not mentions_name(sc[0].args[1], snd.params[2]):
         rep.bad('PC5', snd, sc[0], 'payload handed to protocol.send is not the data argument')
+    # the primitives are unconditional: every call sends / posts the receive (a missing connection must surface as an error, not
+    # be skipped), and _receive_message returns what protocol.receive returns on every path
+    from . import cond as _cond
+    for fn, c, what in ((snd, sc[0], 'sent'), (rcv, rc[0], 'received')):
+        pm_ = parents(fn.node)
+        cx_ = _cond.context(fn, c, pm_)
+        if _cond.equivalent(cx_, _cond.TRUE):
+            rep.ok('PC5', fn, c, f'every call is {what}: no condition guards the primitive')
+        else:
+            rep.bad('PC5', fn, c, f'the message is {what} only when {_cond.fmt(cx_)}: otherwise the call silently does nothing, so a party that lost a connection '
+                    'goes on with missing messages instead of failing')
+    rets_ = [r_ for r_ in iter_nodes(rcv.node) if isinstance(r_, ast.Return)]
+    pmr_ = parents(rcv.node)
+    if len(rets_) == 1 and rets_[0].value is not None and any(x_ is rc[0] for x_ in ast.walk(_sem0.expand(rcv, rets_[0].value, rets_[0], pmr_))) is False \
+            and norm(_sem0.expand(rcv, rets_[0].value, rets_[0], pmr_)) == norm(_sem0.expand(rcv, rc[0], rc[0], pmr_)) and any(rets_[0] is s_ for s_ in rcv.node.body):
+        rep.ok('PC5', rcv, rets_[0], '_receive_message returns the payload / Future of protocol.receive on its only path')
+    elif len(rets_) == 1 and rets_[0].value is not None and any(x_ is rc[0] for x_ in ast.walk(rets_[0].value)) and any(rets_[0] is s_ for s_ in rcv.node.body):
+        rep.ok('PC5', rcv, rets_[0], '_receive_message returns the payload / Future of protocol.receive on its only path')
+    else:
+        rep.bad('PC5', rcv, rcv.qualname, '_receive_message does not return the result of protocol.receive on every path (None is gathered as if it were a received value)', rcv.node)
     # MessageExchanger: buffers keyed by the label on all three sides
     ex_send = model.func('asyncoro::MessageExchanger.send')
     ex_recv = model.func('asyncoro::MessageExchanger.receive')
